@@ -597,7 +597,7 @@ class CallMixin:
         spec, ordinal = self.loop_spec(node, p)
 
         def k(q, itv):
-            if self.lenient and isinstance(itv, VOpaque):
+            if self.lenient and (isinstance(itv, VOpaque) or (isinstance(itv, VRef) and itv.cls in ("list[?]", "dict[?]", "set[?]"))):
                 # unknown number of arbitrary elements: evaluate the element expression once on a scratch path to see
                 # whether it could touch IR state (dirty mark) and produce an unmodelled container
                 scratch = q.copy()
